@@ -2,6 +2,7 @@ import NxModel.Nex.StreamsGeneric
 import NxModel.Nex.Common
 import NxModel.Nex.Errors
 import NxModel.Nex.DateTime
+import NxModel.Nex.C15Zone
 import NxModel.Nex.StationURL
 import NxModel.Nex.ObjWalk
 import NxModel.Nex.HolderPoly
@@ -15,6 +16,7 @@ type syntax (prefix tokens): u8 … variant | `list T` | `map K V`
   w <pid> <type> | <value>            -> ok <hex> | err <Name>
   r <pid> <type> | <hex>              -> ok <value> | <resthex>  | err <Name>
   dt.fields v / dt.make y mo d h mi s / dt.ts off v / dt.from off t / dt.civil z / dt.days y m d
+  dt.zts v o0 T1 o1 T2 o2 .. / dt.zfrom t o0 T1 o1 ..   (zone table: offset o0, then offset oi from instant Ti on)
   url.repr <scheme> <n> (<key> <val>)*          (strings as s<hex>, ints as i<int>)
   url.parse N|s<hex>     url.get <field> <scheme> <n> (<key> <val>)*    url.w … / url.r <hex>
   res <code>  -> isError isSuccess mkError mkSuccess ;  res.name <code> ; res.named s<hex> ; errtab.add <code> s<hex> ; errtab.check
@@ -122,6 +124,14 @@ partial def showVal : Val → String
   | .variant v => showVariant v
   | .list l => " ".intercalate (s!"L {l.length}" :: l.map showVal)
   | .map m => " ".intercalate (s!"M {m.length}" :: m.map (fun p => showVal p.1 ++ " " ++ showVal p.2))
+
+/-- `T1 o1 T2 o2 …` -/
+def zoneTab : List String → Option (List (Int × Int))
+  | [] => some []
+  | T :: o :: rest => match T.toInt?, o.toInt?, zoneTab rest with
+    | some T, some o, some r => some ((T, o) :: r)
+    | _, _, _ => none
+  | [_] => none
 
 def showRes (r : Except Err String) : String :=
   match r with
@@ -316,6 +326,12 @@ def step (tbl : ErrTable) (line : String) : ErrTable × String :=
   | ["dt.from", off, t] => (tbl, match off.toInt?, t.toInt? with
     | some off, some t => showRes ((DateTime.fromTimestamp off t).map toString)
     | _, _ => "bad-op")
+  | "dt.zts" :: v :: o0 :: tab => (tbl, match v.toNat?, o0.toInt?, zoneTab tab with
+    | some v, some o0, some tab => showRes ((Zone.timestampZ (Zone.zTab o0 tab) v).map toString)
+    | _, _, _ => "bad-op")
+  | "dt.zfrom" :: t :: o0 :: tab => (tbl, match t.toInt?, o0.toInt?, zoneTab tab with
+    | some t, some o0, some tab => showRes ((Zone.fromTimestampZ (Zone.zTab o0 tab) t).map toString)
+    | _, _, _ => "bad-op")
   | ["dt.civil", z] => (tbl, match z.toNat? with
     | some z => let (y, m, d) := DateTime.civilOfDays z; s!"ok {y} {m} {d}"
     | none => "bad-op")
